@@ -76,6 +76,42 @@ func init() {
 				runs++
 			}
 		}
+		// under user configurations (options changed, unknown and misspelt keys, sections for lints without options):
+		// a configuration may change a verdict, never the kind of verdict a lint's name permits
+		{
+			g0 := lint.GlobalRegistry()
+			cfgRuns := 0
+			for ci, cs := range configVariants() {
+				cfg, err := lint.NewConfigFromString(cs)
+				if err != nil {
+					continue
+				}
+				g0.SetConfiguration(cfg)
+				where := fmt.Sprintf(" under configuration #%d %q", ci, cs)
+				for k, cc := range corpus.Certs {
+					if k%2 == ci%2 || tier() == "thorough" {
+						for n, r := range zlint.LintCertificateEx(cc.Cert, g0).Results {
+							note(n, int(r.Status), cc.File+where)
+							cfgRuns++
+						}
+					}
+				}
+				for _, cc := range append(append([]CorpusCRL{}, corpus.CRLs...), crlZoo()...) {
+					for n, r := range zlint.LintRevocationListEx(cc.CRL, g0).Results {
+						note(n, int(r.Status), cc.File+where)
+						cfgRuns++
+					}
+				}
+				for _, cc := range corpus.OCSPs {
+					for n, r := range zlint.LintOcspResponseEx(cc.Resp, g0).Results {
+						note(n, int(r.Status), cc.File+where)
+						cfgRuns++
+					}
+				}
+			}
+			g0.SetConfiguration(lint.NewEmptyConfig())
+			out.Stats["configured_results_observed"] = cfgRuns
+		}
 		// date sweep: every certificate lint on a few objects it applies to, re-dated (in the parsed structure) to every
 		// distinct effective / ineffective date of the registry, one second before and after: branches that depend on the
 		// date (rule versions folded into one body) are reached
